@@ -2914,8 +2914,120 @@ def part_pylogic3(ctx):
     extpy3_cycle.part_cycle(ctx, ctx.scale(250, 5000), lean)
 
 
+# ---------------------------------------------------------------------------------------------------------------------------------
+# units of the matrix (wave 6, stored seed C03-11): a direct coarse solve is homogeneous of degree -1, so the cycle operator of
+# s*A is M/s.  Scaling by an exact power of two changes no rounding, hence the real code on s*A must reproduce (a) the dense
+# solve with the scaled coarsest matrix and (b) the cycle of the unscaled hierarchy (itself compared with the textbook
+# recursion by the other parts) divided by s.  An absolute singular-value / pivot cutoff in a coarse solver shows up here.
+SCALE_EXPS = (-70, -52, -30, 30, 70)
+
+
+def scaled_coarse_cases(rng, full):
+    cases = []
+    t = 0
+    for name in ('pinv', 'lu', 'splu', 'cholesky'):
+        fams = ['poisson1d', 'randspd'] if name == 'cholesky' else ['advdiff1d', 'poisson1d', 'randspd', 'advdiff2d']
+        for e in SCALE_EXPS + ((-200, 200) if full else ()):
+            for levels in (1, 2):
+                t += 1
+                cases.append({'name': name, 'exp': int(e), 'levels': levels, 'fam': fams[t % len(fams)],
+                              'n': int(rng.choice([5, 7, 9])) + 6 * (levels - 1), 'mseed': int(rng.integers(1 << 30)),
+                              'vseed': int(rng.integers(1 << 30)), 'kwargs': bool(t % 3 == 0)})
+    return cases
+
+
+def run_scaled_coarse_case(ctx, c):
+    """-> None (held / not judged) or the text of the violation"""
+    import pyamg
+    from pyamg.multilevel import MultilevelSolver, coarse_grid_solver
+    from pyamg.relaxation.smoothing import change_smoothers
+    import scipy.sparse as sp
+    A = None
+    ms = c['mseed']
+    for k in range(8):
+        A0 = matrix(c['fam'], c['n'], ms + k)[0]
+        if np.linalg.cond(A0.toarray()) < 1e3:
+            A = sp.csr_matrix(A0)
+            break
+    if A is None or np.iscomplexobj(A.data):
+        ctx.feat('scaled-coarse:skipped(no well-conditioned matrix)')
+        return None
+    s = float(2.0 ** c['exp'])
+    n = A.shape[0]
+    vr = np.random.default_rng(c['vseed'])
+    b = vr.integers(-4, 5, size=n).astype(float)
+    b[0] += 1.0
+    As = sp.csr_matrix(A * s)
+    cs = c['name'] if not c['kwargs'] else (c['name'], {})
+    tag = f"coarse solver {c['name']!r} on a {n} x {n} {c['fam']} matrix scaled by 2^{c['exp']}"
+    ctx.feat(f"scaled-coarse:{c['name']}:L{c['levels']}")
+    if c['levels'] == 1:
+        want = np.linalg.solve(A.toarray(), b) / s
+        lvl = MultilevelSolver.Level()
+        lvl.A = As
+        got = np.ravel(MultilevelSolver([lvl], coarse_solver=cs).solve(b.copy(), maxiter=1, tol=1e-30))
+        got2 = np.ravel(coarse_grid_solver(cs)(As, b.copy()))
+        for nm, g in (('MultilevelSolver([one level]).solve(b)', got), ('coarse_grid_solver(..)(A, b)', got2)):
+            if not np.all(np.isfinite(g)) or np.abs(g - want).max() > 1e-9 * max(1e-300, np.abs(want).max()):
+                return (f'{tag}: {nm} is not the direct solve with the stored matrix: max |x - A^-1 b| = '
+                        f'{float(np.abs(g - want).max()):.3g}, |A^-1 b| = {float(np.abs(want).max()):.3g}')
+        return None
+    # two levels: the same aggregation hierarchy in both units (P, R shared; the level matrices scaled exactly)
+    np.random.seed(c['vseed'] % (1 << 30))
+    try:
+        ml = pyamg.smoothed_aggregation_solver(A, max_levels=2, max_coarse=1, coarse_solver=cs, smooth=None, symmetry='nonsymmetric',
+                                               strength=None, presmoother=('gauss_seidel', {'sweep': 'forward'}),
+                                               postsmoother=('gauss_seidel', {'sweep': 'backward'}))
+    except Exception as e:
+        ctx.feat('scaled-coarse:construct-rejected:' + type(e).__name__)
+        return None
+    if len(ml.levels) != 2 or ml.levels[1].A.shape[0] < 2 or not np.linalg.cond(ml.levels[1].A.toarray()) < 1e4:
+        ctx.feat('scaled-coarse:skipped(coarse level)')
+        return None
+    lv = []
+    for L in ml.levels:
+        M = MultilevelSolver.Level()
+        M.A = sp.csr_matrix(L.A * s)
+        if hasattr(L, 'P'):
+            M.P, M.R = L.P.copy(), L.R.copy()
+        lv.append(M)
+    ml2 = MultilevelSolver(lv, coarse_solver=cs)
+    change_smoothers(ml2, ('gauss_seidel', {'sweep': 'forward'}), ('gauss_seidel', {'sweep': 'backward'}))
+    for cyc in ('V', 'W'):
+        want = np.ravel(ml.solve(b.copy(), maxiter=1, tol=1e-30, cycle=cyc))
+        got = np.ravel(ml2.solve(b * s, maxiter=1, tol=1e-30, cycle=cyc))
+        # independent of the first hierarchy: the exact two-grid formula with the dense coarse inverse
+        Ad, P, R = ml.levels[0].A.toarray(), ml.levels[0].P.toarray(), ml.levels[0].R.toarray()
+        Lo, Up = np.tril(Ad), np.triu(Ad)
+        x1 = np.linalg.solve(Lo, b)
+        x2 = x1 + P @ np.linalg.solve(ml.levels[1].A.toarray(), R @ (b - Ad @ x1))
+        x3 = x2 + np.linalg.solve(Up, b - Ad @ x2)
+        sc = max(1e-300, np.abs(x3).max())
+        for nm, g, w in ((f'one {cyc}-cycle on s*A with right-hand side s*b', got, x3), (f'one {cyc}-cycle on A', want, x3)):
+            if not np.all(np.isfinite(g)) or np.abs(g - w).max() > 1e-8 * sc:
+                return (f'{tag} (two levels, coarsest {ml.levels[1].A.shape[0]} x {ml.levels[1].A.shape[0]}): {nm} is not the '
+                        f'textbook two-grid cycle with the exact coarse solve: max diff {float(np.abs(g - w).max()):.3g}, '
+                        f'|x| = {sc:.3g}')
+    return None
+
+
+def part_scaled_coarse(ctx, full=False):
+    # own generator: the stream of the other parts (and so their sampled specifications per seed) stays what it was
+    own = np.random.default_rng([int(ctx.seed) & 0xffffffff, 0xC03B])
+    for c in scaled_coarse_cases(own, full or not ctx.quick):
+        try:
+            bad = run_scaled_coarse_case(ctx, c)
+        except Exception as e:          # raising is not a statement about the cycle operator
+            ctx.feat('scaled-coarse:raised:' + type(e).__name__)
+            continue
+        ctx.case(key=('scaled-coarse', c['name'], c['exp'], c['levels'], c['fam'], c['n'], c['mseed']), nontrivial=True)
+        if bad is not None:
+            ctx.violation(bad, {'kind': 'scaled-coarse', 'scaled': c})
+
+
 def run(ctx):
     part_pylogic3(ctx)
+    part_scaled_coarse(ctx)
     rng = ctx.np_rng
     n_small = ctx.scale(48, 1600)
     n_big = ctx.scale(6, 250)
@@ -2937,6 +3049,7 @@ def run(ctx):
 
 
 def search(ctx):
+    part_scaled_coarse(ctx, full=True)
     rng = ctx.np_rng
     grid = grid_specs(rng, True)
     rnd = [gen_spec(rng, 20000 + t) for t in range(150)]
@@ -2949,6 +3062,12 @@ def search(ctx):
 
 def replay(ctx, data):
     case = data['case']
+    if case.get('kind') == 'scaled-coarse':
+        bad = run_scaled_coarse_case(ctx, case['scaled'])
+        print('scaled coarse case', case['scaled'], '->', bad or 'holds')
+        if bad is not None:
+            ctx.violation(bad, case)
+        return
     spec = case['spec']
     print('replaying', {k: spec[k] for k in spec if k not in ('manual',)}, 'kind', case.get('kind'))
     ml, info = build(spec)
